@@ -16,6 +16,13 @@ class B: ...
 class C: ...
 
 
+from typing import Generic, TypeVar  # noqa: E402
+_T = TypeVar('_T')
+
+
+class G(Generic[_T]): ...
+
+
 class Made:
 	def __init__(self, by: str, deps: tuple = ()):
 		self.by = by
@@ -26,12 +33,15 @@ def f1() -> A: return Made('f1')  # type: ignore[return-value]
 def f2() -> A: return Made('f2')  # type: ignore[return-value]
 def g1() -> B: return Made('g1')  # type: ignore[return-value]
 def g2(a: A) -> B: return Made('g2', (a,))  # type: ignore[return-value]
+def h1() -> G[A]: return Made('h1')  # type: ignore[return-value]
+def h2() -> G[A]: return Made('h2')  # type: ignore[return-value]
 
 
-SYMS = {'A': A, 'B': B}
-FACS = {'f1': f1, 'f2': f2, 'g1': g1, 'g2': g2}
-FAC_FOR = {'A': ['f1', 'f2'], 'B': ['g1', 'g2']}
-PATHS = {'A': f'{__name__}.A', 'B': f'{__name__}.B'}
+# 'GA' is a parameterised generic symbol: the container files it under its origin class (one more spelling of the same binding)
+SYMS = {'A': A, 'B': B, 'GA': G[A]}
+FACS = {'f1': f1, 'f2': f2, 'g1': g1, 'g2': g2, 'h1': h1, 'h2': h2}
+FAC_FOR = {'A': ['f1', 'f2'], 'B': ['g1', 'g2'], 'GA': ['h1', 'h2']}
+PATHS = {'A': f'{__name__}.A', 'B': f'{__name__}.B', 'GA': f'{__name__}.G'}
 
 
 class Model:
